@@ -350,7 +350,22 @@ def r20_3(ctx: Ctx, R: Resolver):
             # the extension variable: last dot-separated piece of the base name
             exts = [b_["V_e"] for _, b_ in pfind(cf.node, "V_e = E_n.split('.')[-1]")] + \
                 [b_["V_e"] for _, b_ in pfind(cf.node, "V_e = E_n.rsplit('.', 1)[-1]")]
-            ext = exts[0] if exts else "extension"
+            ext = exts[0] if exts else None
+            if ext is None:
+                # how the tested value is computed decides: another split of the name on '.' is a different piece of it
+                from ..pat import single_defs as _sd20
+                sd_ = _sd20(cf.node)
+                tested = [t_.split(" in ")[0].strip() for t_, p_ in g_ if " in " in t_ and reg.replace(" ", "") in t_.replace(" ", "")]
+                dv = sd_.get(tested[0]) if tested else None
+                dtxt = norm(dv) if dv is not None else ""
+                other_split = dv is not None and (".split('.'" in dtxt or ".rsplit('.'" in dtxt or ".partition('.')" in dtxt or ".rpartition('.')" in dtxt)
+                if other_split and ".rpartition('.')[2]" not in dtxt and ".rpartition('.')[-1]" not in dtxt:
+                    ctx.ob("R20.3", cf, c, False, "a file is classified by its extension: the text after the LAST dot of the base name -- "
+                           "`%s` is another piece of the name (wrong for names with more than one dot)" % dtxt, node=dv)
+                else:
+                    ctx.ob("R20.3", cf, c, True, "the extension is not computed as name.split('.')[-1]; classification not decided on this tree",
+                           undecided=True, node=c)
+                continue
             ctx.ob("R20.3", cf, c, g_ == [ctext("%s in %s" % (ext, reg))],
                    "a file is a %s candidate exactly when its extension has a registered %s parser" % (
                        "coordinate" if "coord" in which else "topology", "coordinate" if "coord" in which else "topology"), node=c)
